@@ -278,11 +278,9 @@ class ReplSet(SyncObjConsumer):
             raise KeyError('pop from an empty set')
         # Which element set.pop() yields depends on the layout of the hash table, which differs between
         # replicas with equal contents (built through the log / restored from a snapshot / other hash seed).
-        # Every replica has to remove the same one: take the smallest.
-        try:
-            item = min(self.__data)
-        except TypeError:
-            item = min(self.__data, key=lambda x: (type(x).__name__, repr(x)))
+        # Every replica has to remove the same one: take the first by type name and repr.
+        # (not the natural order: it is partial for frozensets, undefined for NaN and mixed types)
+        item = min(self.__data, key=lambda x: (type(x).__name__, repr(x)))
         self.__data.remove(item)
         return item
 
